@@ -32,6 +32,7 @@ RULE = (
     "extended condition with >= 2 operators."
 )
 RULE += (" " + 'Pipelines are also scoped to a log source that matches all or none of the rules, and the outer correlation rule may carry group-by and a condition field, which must be mapped like those of the referenced rules.')
+RULE += (" Referenced rules and the correlation rule carry optional fields lists; with a fields expression configured the fields slot must list them in reference order, de-duplicated, without group-by fields, after field mapping.")
 ASSUMPTIONS = [
     "solo queries of referenced rules are computed by the same backend class on fresh objects (isolation, not semantics)",
     "the unit lengths s/m/h/d/w/M/y = 1/60/3600/86400/604800/2629746/31556952 seconds",
@@ -217,6 +218,23 @@ def check_case(case: dict) -> Outcome:
         want_field = "None"  # no field given: the template receives the (absent) field as is
     if not ext and agg["field"][0] != want_field:
         out.fail("C10:condition-field", f"{desc}: aggregate field {agg['field'][0]!r} expected {want_field!r}")
+    # ---- fields list: fields of the referenced rules in reference order, then the correlation rule's own,
+    # without group-by fields, first occurrence kept, after field mapping
+    if ccfg.get("fields"):
+        gbm = [] if gb is None else [(g if g in aliases else map_field(g, pspec)) for g in gb]
+        want_fl = []
+        for f in [map_field(x, pspec) for r in refs for x in by_key[r].get("fields", [])] + [map_field(x, pspec) for x in main.get("fields", [])]:
+            if f not in gbm and f not in want_fl:
+                want_fl.append(f)
+        want_fields = [("cf", "".join("f⟦" + f + "⟧" for f in want_fl))] if want_fl else []
+        try:
+            got_fields = parse_brackets(agg["fields"][0])
+        except BracketError as e:
+            got_fields = repr(e)
+        if got_fields != want_fields:
+            out.fail("C10:fields-list", f"{desc}: fields slot {agg['fields'][0]!r} expected {want_fields}; rule fields {[by_key[r].get('fields') for r in refs]} own {main.get('fields')}")
+        if len(want_fl) >= 2:
+            out.label("fields-list>=2")
     want_pct = str(cd["percentile"]) if cd and cd.get("percentile") is not None else ""
     if agg["pct"][0] != want_pct:
         out.fail("C10:percentile", f"{desc}: percentile {agg['pct'][0]!r} expected {want_pct!r}")
@@ -290,6 +308,8 @@ def cases(draw):
              "detection": {"sel": {draw(st.sampled_from(["user", "fa", "other"])): f"v{i}"}, "o": {"cnt": i}, "condition": "sel"}}
         if draw(st.integers(0, 3)) == 0:
             d["detection"]["condition"] = ["sel", "sel and not o"]
+        if draw(st.integers(0, 2)) == 0:
+            d["fields"] = draw(st.lists(st.sampled_from(["user", "fa", "other", "cnt", "zeta", "alpha", "beta"]), min_size=1, max_size=4, unique=True))
         byid = draw(st.integers(0, 3)) == 0
         if byid:
             d["id"] = UUIDS[i]
@@ -340,6 +360,8 @@ def cases(draw):
         if ctype == "value_percentile":
             c["condition"]["percentile"] = draw(st.sampled_from([0, 0, 1, 50, 95, 99, 100]))
     corrs = [{"title": "corr_main", "name": "cmain", "correlation": c}]
+    if draw(st.integers(0, 2)) == 0:
+        corrs[0]["fields"] = draw(st.lists(st.sampled_from(["user", "account", "gamma", "alpha", "delta"]), min_size=1, max_size=3, unique=True))
     if draw(st.integers(0, 3)) == 0:
         oc = {"type": "event_count", "rules": ["cmain"], "timespan": "1h", "condition": {"gte": 2}}
         if draw(st.booleans()):
